@@ -320,7 +320,14 @@ def _trait(selfty, trait, tname, method, c):
         return colls.index
     if tname in ("Iterator", "DoubleEndedIterator", "ExactSizeIterator", "ParallelIterator", "IndexedParallelIterator"):
         return iters.method(method, c)
-    if tname in ("IntoIterator", "IntoParallelIterator", "IntoParallelRefIterator"):
+    if tname in ("IntoParallelIterator", "IntoParallelRefIterator", "IntoParallelRefMutIterator", "ParallelBridge"):
+        def ipi(I, a, fr, d):
+            it = iters.to_iter(I, a[0])
+            it.d["par"] = True
+            if tname == "ParallelBridge": it.d["unordered"] = True
+            return it
+        return ipi
+    if tname in ("IntoIterator",):
         return iters.into_iter
     if tname == "FromIterator": return iters.method("collect_from", c)
     if tname == "Extend" and method == "extend": return colls.extend
